@@ -19,6 +19,8 @@ import GdcVerif.Lemmas.T1LayeredLock
 import GdcVerif.Lemmas.T1Side
 import GdcVerif.Lemmas.T1Trunc
 import GdcVerif.Lemmas.T1LazyFinal
+import GdcVerif.Lemmas.T1PipeFinal
+import GdcVerif.Lemmas.MqcLen
 /-!
   C20 — JPEG 2000 building blocks are exact inverses: RCT, 5/3 DWT, MQ coder, EBCOT T1.
 
@@ -402,6 +404,79 @@ theorem t1_encode_no_panic_mq (w h orient style : Nat) (coeffs : List Int) (numP
 
 /-- non-vacuity: TERMALL|PTERM -/
 example : Go.and ((20 : Nat) : Int) CblkStyleLazy = 0 := by decide
+
+/-- **length bound for MQ output** (crude): every `Encode` shifts the code register by at most 15 bits (`Qe ≥ 1`),
+a byte leaves it every 7 or 8 shifts, `Flush` adds at most three bytes — `n` decisions give at most
+`(15·n + 8)/7 + 2` bytes.  Enough to bound a codeword segment that holds one coding pass (TERMALL: a pass over
+≤ 4096 samples makes ≤ 11264 decisions → ≤ 24140 bytes); the sharp bound for a whole block needs an amortised
+argument over the probability states and is not attempted -/
+theorem mq_len_bound (n : Nat) (ds : List (Nat × Nat)) (hds : ∀ d ∈ ds, d.2 < n) :
+    ∃ bytes, Mqc.encodeBytes n ds = some bytes ∧ bytes.length ≤ (15 * ds.length + 8) / 7 + 2 :=
+  Mqc.mq_len_bound n ds hds
+
+/-- non-vacuity: the bound for one pass of a 64x64 block -/
+example : (15 * 11264 + 8) / 7 + 2 = 24140 ∧ 24140 ≤ 65535 := by decide
+
+/-! ## EBCOT T1 in the configuration of the reversible pipeline (`Model/T1Pipe.lean`)
+
+`jpeg2000/encoder.go` feeds `Encode` the coefficients shifted left by 6 with `SetNMSEDecFractionalBits(6)`;
+`t2/tile_decoder.go` decodes with `SetOpenJPEGReconstruction(true)` at `maxBitplane = numbps` (one more than the
+plane index) and halves the result. -/
+
+/-- **pipeline configuration, encoder side**: with `fb ≥ 1` fractional bits, `Encode` on the block scaled by `2^fb`
+emits exactly the bytes of the plain `Encode` on the block itself — the loop stops below plane `fb`, the added low
+planes are never coded, and the stream always ends with `Flush()` (every pass count; styles without LAZY, TERMALL,
+PTERM, RESET) -/
+theorem t1_pipeline_encode (fb w h orient style : Nat) (coeffs : List Int) (np : Nat) (hfb : 1 ≤ fb)
+    (hT : Go.and (style : Int) CblkStyleTermAll = 0) (hL : Go.and (style : Int) CblkStyleLazy = 0)
+    (hP : T1.styPterm style = false) (hR : T1.styReset style = false) :
+    T1.encodeBlockF fb w h orient style (coeffs.map (fun c => c * ((2 ^ fb : Nat) : Int))) np =
+      T1.encodeBlock w h orient style coeffs np :=
+  T1.encodeBlockF_scale fb w h orient style coeffs np hfb hT hL hP hR
+
+/-- non-vacuity: style 0 and SEGSYM|VSC = 40 qualify; the scaling by 2^6 -/
+example : Go.and ((40 : Nat) : Int) CblkStyleTermAll = 0 ∧ Go.and ((40 : Nat) : Int) CblkStyleLazy = 0 ∧
+    T1.styPterm 40 = false ∧ T1.styReset 40 = false ∧ [(-3 : Int), 5].map (fun c => c * ((2 ^ 6 : Nat) : Int)) = [-192, 320] := by
+  decide
+
+/-- **pipeline configuration, round trip** (style 0, all `3(mb+1)-2` passes, `|c| < 2^25` so that `c << fb` is an
+`int32` for `fb ≤ 6`): the block scaled by `2^fb` through `Encode` with `fb` fractional bits, then
+`DecodeWithBitplane` with OpenJPEG reconstruction started at `maxBitplane = numbps = mb + 1`, then `/= 2`
+(`T1.halveT`, Go division) — gives the block back.  During decoding a sample coded down to plane `l` holds
+`sign·(2·⌊|c|/2^l⌋·2^l + 2^l)` (`T1.ojv`), `sign·(2|c|+1)` at the end -/
+theorem t1_pipeline_roundtrip (fb w h orient mb : Nat) (coeffs : List Int) (hfb : 1 ≤ fb)
+    (hlen : coeffs.length = w * h) (hbnd : ∀ c ∈ coeffs, -33554432 < c ∧ c < 33554432)
+    (hmb : T1.findMaxBitplane (T1.padBlock w h coeffs) = some mb) :
+    ∃ bytes out,
+      T1.encodeBlockF fb w h orient 0 (coeffs.map (fun c => c * ((2 ^ fb : Nat) : Int))) (3 * (mb + 1) - 2) = .ok bytes ∧
+      T1.decodeBlockOJ w h orient 0 (3 * (mb + 1) - 2) ((mb + 1 : Nat) : Int) bytes = .ok out ∧
+      out.map T1.halveT = coeffs := by
+  rw [show 3 * (mb + 1) - 2 = 3 * mb + 1 by omega]
+  exact T1.t1_pipeline_roundtrip fb w h orient mb coeffs hfb hlen (fun c hc => by have := hbnd c hc; omega) hmb
+
+/-- non-vacuity -/
+example : T1.findMaxBitplane (T1.padBlock 2 1 [-13, 11]) = some 3 ∧ T1.halveT (-27) = -13 ∧ T1.halveT 23 = 11 ∧
+    T1.ojv 0 (-13) = -27 := by decide
+
+/-- **pipeline configuration, the all-zero block**: both encoder configurations emit FF 7F (the flush of a fresh
+coder), the pipeline still sends ONE pass, and that cleanup pass over FF 7F decodes to zeros in both reconstruction
+modes at any start plane: behind FF 7F the reader feeds 1-bits, the code register stays at the top of the interval
+(`Mqc.ZInv`: `C = A·2^16 - 2^(16-ct)`), and the run-length and zero-coding contexts only walk the MPS chain of
+states 3,4,5,38..45 with `Qe ≤ 0x0AC1`, so every decision is 0 (styles without SEGSYM) -/
+theorem t1_pipeline_zero_block (fb w h orient style mbd : Nat) (coeffs : List Int) (np : Nat)
+    (hlen : coeffs.length = w * h) (hz : T1.findMaxBitplane (T1.padBlock w h coeffs) = none)
+    (hS : T1.stySegsym style = false) :
+    T1.encodeBlockF fb w h orient style coeffs np = .ok [255, 127] ∧
+    T1.encodeBlock w h orient style coeffs np = .ok [255, 127] ∧
+    T1.decodeBlockOJ w h orient style 1 (mbd : Int) [255, 127] = .ok (List.replicate (w * h) 0) ∧
+    T1.decodeBlock w h orient style 1 (mbd : Int) [255, 127] = .ok (List.replicate (w * h) 0) ∧
+    coeffs = List.replicate (w * h) 0 :=
+  ⟨(T1.encode_zero_bytes fb w h orient style coeffs np hlen hz).1, (T1.encode_zero_bytes fb w h orient style coeffs np hlen hz).2,
+    T1.decodeBlockOJ_zero w h orient style mbd hS, T1.decodeBlock_zero w h orient style mbd hS,
+    T1.zero_of_nomax w h coeffs hlen hz⟩
+
+/-- non-vacuity -/
+example : T1.findMaxBitplane (T1.padBlock 2 2 [0, 0, 0, 0]) = none ∧ T1.stySegsym 0 = false := by decide
 
 /-- side case, truncated pass count (styles without LAZY and TERMALL, `1 ≤ np < 3(mb+1)-2`): decoding the stream
 with the same pass count returns every coefficient truncated below a plane `lev x y` (`T1.tr p v` keeps the sign
